@@ -187,8 +187,8 @@ class Corr:
         else:
             # There are no checks here yet. There are so many possible scenarios, where this can go wrong.
             if normalize:
-                vector_l = [v / np.sqrt(v @ v) for v in vector_l[:self.T]]
-                vector_r = [v / np.sqrt(v @ v) for v in vector_r[:self.T]]
+                vector_l = [None if v is None else v / np.sqrt(v @ v) for v in vector_l[:self.T]]
+                vector_r = [None if v is None else v / np.sqrt(v @ v) for v in vector_r[:self.T]]
 
             newcontent = [None if (_check_for_none(self, self.content[t]) or vector_l[t] is None or vector_r[t] is None) else np.asarray([vector_l[t].T @ self.content[t] @ vector_r[t]]) for t in range(self.T)]
         return Corr(newcontent)
